@@ -114,39 +114,39 @@ Proof.
   - pose proof (bind_not_oof _ _ H) as H1. rewrite (seval_mono _ _ _ H1 _ L). reflexivity.
   - pose proof (bind_not_oof _ _ H) as H1. rewrite (seval_mono _ _ _ H1 _ L).
     destruct (seval n t r) as [v| |]; cbn in *; auto.
-    destruct v as [| | |defs rr]; auto. destruct (assoc defs f) as [ef|]; auto.
-    apply (IH (ef, ERec defs rr) n H m L).
+    destruct v as [| | |fs]; auto. destruct (assoc fs f) as [[cf bb]|]; auto.
+    apply (IH cf n H m L).
 Qed.
 
-Lemma force_fields_mono (g : nat -> tm -> res data) fs :
-  (forall ef, In ef (map snd fs) -> mono (fun n => g n ef)) ->
+Lemma force_fields_mono (g : nat -> sclos -> res data) fs :
+  (forall cf, mono (fun n => g n cf)) ->
   mono (fun n => force_fields (g n) fs).
 Proof.
-  induction fs as [|[f ef] fs IH]; intros Mg n H m L; cbn in *; auto.
+  induction fs as [|[f [cf bb]] fs IH]; intros Mg n H m L; cbn in *; auto.
   pose proof (bind_not_oof _ _ H) as H1.
-  rewrite (IH (fun e I => Mg e (or_intror I)) n H1 m L).
+  rewrite (IH Mg n H1 m L).
   destruct (force_fields (g n) fs) as [ds| |]; cbn in *; auto.
-  pose proof (bind_not_oof _ _ H) as H2. rewrite (Mg ef (or_introl eq_refl) n H2 m L). reflexivity.
+  pose proof (bind_not_oof _ _ H) as H2. rewrite (Mg cf n H2 m L). reflexivity.
 Qed.
 
 Lemma sforce_mono : forall n v, sforce n v <> OOF -> forall m, n <= m -> sforce m v = sforce n v.
 Proof.
   induction n as [|n IH]; intros v H m L; [cbn in H; congruence|].
   destruct m as [|m]; [lia|]. assert (L' : n <= m) by lia.
-  destruct v as [| | |defs rr]; cbn in *; auto.
+  destruct v as [| | |fs0]; cbn in *; auto.
   pose proof (bind_not_oof _ _ H) as H1.
   assert (E : forall fs,
-             force_fields (fun ef => bind (seval n ef (ERec defs rr)) (sforce n)) fs <> OOF ->
-             force_fields (fun ef => bind (seval m ef (ERec defs rr)) (sforce m)) fs
-             = force_fields (fun ef => bind (seval n ef (ERec defs rr)) (sforce n)) fs).
-  { induction fs as [|[f ef] fs IHfs]; cbn; auto.
+             force_fields (fun cf => bind (seval n (fst cf) (snd cf)) (sforce n)) fs <> OOF ->
+             force_fields (fun cf => bind (seval m (fst cf) (snd cf)) (sforce m)) fs
+             = force_fields (fun cf => bind (seval n (fst cf) (snd cf)) (sforce n)) fs).
+  { induction fs as [|[f [cf bb]] fs IHfs]; cbn; auto.
     intros G1. pose proof (bind_not_oof _ _ G1) as G2. rewrite (IHfs G2).
     destruct (force_fields _ fs) as [ds| |]; cbn in *; auto.
     pose proof (bind_not_oof _ _ G1) as G3. pose proof (bind_not_oof _ _ G3) as G4.
     rewrite (seval_mono _ _ _ G4 _ L').
-    destruct (seval n ef (ERec defs rr)) as [v| |]; cbn in *; auto.
+    destruct (seval n (fst cf) (snd cf)) as [v| |]; cbn in *; auto.
     rewrite (IH v) by (auto; eapply bind_not_oof; eauto). reflexivity. }
-  now rewrite (E defs H1).
+  now rewrite (E fs0 H1).
 Qed.
 
 Lemma sfull_mono c : mono (fun n => sfull n c).
@@ -204,9 +204,9 @@ Proof.
     assert (HEAD : forall r1 G2, ext G1 G2 ->
               res_ok (val_rel G2)
                      (fun n => match v with
-                               | VRec defs rr =>
-                                   match assoc defs f with
-                                   | Some ef => squery n (ef, ERec defs rr) path
+                               | VRec fs =>
+                                   match assoc fs f with
+                                   | Some (cf, _) => squery n cf path
                                    | None => Err EFieldMissing
                                    end
                                | _ => Err EQueryNonRecord
@@ -215,26 +215,26 @@ Proof.
     { intros r1 G2 X2 HR. cbn [squery fst snd].
       apply (res_ok_bind_val (val_rel G2) (fun n => seval n t rt)
                (fun n v' => match v' with
-                            | VRec defs rr =>
-                                match assoc defs f with
-                                | Some ef => squery n (ef, ERec defs rr) path
+                            | VRec fs =>
+                                match assoc fs f with
+                                | Some (cf, _) => squery n cf path
                                 | None => Err EFieldMissing
                                 end
                             | _ => Err EQueryNonRecord
                             end) v m r1); auto using seval_is_mono.
-      - destruct v as [| | |defs rr]; try (intros ? ? ? ?; reflexivity).
-        destruct (assoc defs f); [apply squery_mono|intros ? ? ? ?; reflexivity]. }
+      - destruct v as [| | |fs]; try (intros ? ? ? ?; reflexivity).
+        destruct (assoc fs f) as [[cf0 bb0]|]; [apply squery_mono|intros ? ? ? ?; reflexivity]. }
     destruct w as [wc we]. cbn [fst] in E. destruct wc as [tw|fl].
     + inversion E; subst. exists G1. split; auto. apply HEAD; auto using ext_refl.
       inversion VR; subst; (split; [discriminate|intros _; exists 0; reflexivity]).
-    + inversion VR as [| | |fl0 env0 defs rr FRl]; subst.
-      pose proof (fields_assoc G1 defs rr f fl defs FRl) as FA.
-      destruct (assoc fl f) as [l|].
-      * destruct FA as (ef & A1 & GL).
-        destruct (IH k0 G1 (hp cf) (ptr l) (SC (Var "%") (ECons "%" ef (ERec defs rr) ENil)) ef (ERec defs rr)
+    + inversion VR as [| | |fl0 env0 fs FRl]; subst.
+      pose proof (fields_assoc G1 f fl fs FRl) as FA.
+      destruct (assoc fl f) as [[l bb]|].
+      * destruct FA as ([ef re] & A1 & GL).
+        destruct (IH k0 G1 (hp cf) (ptr l) (SC (Var "%") (ECons "%" ef re ENil)) ef re
                      r fr h' k' H1 C1) as (G2 & X2 & R2); auto.
         { constructor. now apply env_rel_ptr. }
-        { pose proof (equiterm_ptr (fun _ v => Val v) ef (ERec defs rr) ltac:(intros ? ? ? ? ?; reflexivity)) as Q.
+        { pose proof (equiterm_ptr (fun _ v => Val v) ef re ltac:(intros ? ? ? ? ?; reflexivity)) as Q.
           destruct Q as [Q1 Q2]. split; intros n Hn.
           - destruct (Q1 n) as (m' & Em'); [now rewrite bind_val'|]. exists m'. now rewrite !bind_val' in Em'.
           - destruct (Q2 n) as (m' & Em'); [now rewrite bind_val'|]. exists m'. now rewrite !bind_val' in Em'. }
@@ -278,14 +278,13 @@ Proof.
   - destruct (Q2 n) as (m' & Em'); [now rewrite bind_val'|]. exists m'. now rewrite !bind_val' in Em'.
 Qed.
 
-Definition gfield (defs : list (string * tm)) (rr : senv) (n : nat) (ef : tm) : res data :=
-  bind (seval n ef (ERec defs rr)) (sforce n).
+Definition gfield (n : nat) (cf : sclos) : res data := sfull n cf.
 
-Lemma gfield_mono defs rr ef : mono (fun n => gfield defs rr n ef).
-Proof. apply (sfull_mono (ef, ERec defs rr)). Qed.
+Lemma gfield_mono cf : mono (fun n => gfield n cf).
+Proof. apply (sfull_mono cf). Qed.
 
-Lemma sforce_rec n defs rr :
-  sforce (S n) (VRec defs rr) = bind (force_fields (gfield defs rr n) defs) (fun ds => Val (DRec ds)).
+Lemma sforce_rec n fs :
+  sforce (S n) (VRec fs) = bind (force_fields (gfield n) fs) (fun ds => Val (DRec ds)).
 Proof. reflexivity. Qed.
 
 Theorem force_sound d : forall k G h c sc t rt r fr h' k',
@@ -314,19 +313,19 @@ Proof.
     destruct w as [wc we]. cbn [fst] in E. destruct wc as [tw|fl].
     + inversion VR; subst; inversion E; subst; apply HEAD; cbn;
         eexists _, 1; split; reflexivity.
-    + inversion VR as [| | |fl0 env0 defs rr FRl]; subst.
+    + inversion VR as [| | |fl0 env0 fs FRl]; subst.
       match type of E with map_res _ (?F fl (hp cf) k0) = _ => set (fields := F) in * end.
-      assert (FLS : forall fl0 defs0, fields_rel G1 defs rr fl0 defs0 ->
+      assert (FLS : forall fl0 fs0, fields_rel G1 fl0 fs0 ->
                  forall G2 h1 k1 r1 fr1 h2 k2,
                  ext G1 G2 -> heap_ok G2 h1 -> clean h1 ->
                  fields fl0 h1 k1 = (r1, (fr1, h2, k2)) ->
                  (exists G3, ext G2 G3 /\ heap_ok G3 h2 /\ bh_inv fr1 h2 /\ (forall a, r1 = Val a -> fr1 = []))
-                 /\ res_ok eq (fun n => force_fields (gfield defs rr n) defs0) r1).
-      { clear E. intros fl0 defs0 F0. unfold fields_rel in F0.
-        induction F0 as [|[f l] [f' ef] fl0 defs0 [N1 N2] F0 IHfl];
+                 /\ res_ok eq (fun n => force_fields (gfield n) fs0) r1).
+      { clear E. intros fl0 fs0 F0. unfold fields_rel in F0.
+        induction F0 as [|[f [l bb]] [f' [[ef re] bb']] fl0 fs0 (N1 & N3 & N2) F0 IHfl];
           intros G2 h1 k1 r1 fr1 h2 k2 X2 H2 C2 E1; cbn in E1.
         - inversion E1; subst. split; [fin4 G2|]. cbn. exists [], 0. split; reflexivity.
-        - cbn in N1, N2. subst f'.
+        - cbn in N1, N2, N3. subst f' bb'.
           destruct (fields fl0 h1 k1) as [r2 [[fr2 h3] k3]] eqn:E2.
           destruct (IHfl G2 h1 k1 r2 fr2 h3 k3 X2 H2 C2 E2) as [(G3 & X3 & H3 & B3 & V3) R3].
           cbn [force_fields].
@@ -335,29 +334,29 @@ Proof.
           2:{ inversion E1; subst. split; [fin4 G3|]. exact Logic.I. }
           rewrite (V3 ds eq_refl) in B3. apply bh_inv_nil in B3.
           destruct (force d k3 h3 (ptr l)) as [r4 [[fr4 h4] k4]] eqn:E4.
-          assert (GL3 : nth_error G3 l = Some (ef, ERec defs rr)).
+          assert (GL3 : nth_error G3 l = Some (ef, re)).
           { apply (ext_nth G1 G3); [exact (ext_trans _ _ _ X2 X3)|exact N2]. }
-          assert (CRp : ctrl_rel G3 (ptr l) (SC (Var "%") (ECons "%" ef (ERec defs rr) ENil))).
+          assert (CRp : ctrl_rel G3 (ptr l) (SC (Var "%") (ECons "%" ef re ENil))).
           { constructor. now apply env_rel_ptr. }
           destruct (force_heap_ok _ _ G3 _ _ _ _ _ _ H3 B3 (ex_intro _ _ CRp) E4) as (G4 & X4 & H4 & B4 & V4).
-          pose proof (IH _ _ _ _ _ ef (ERec defs rr) _ _ _ _ H3 B3 CRp (equiterm_ptr_seval _ _) E4) as R4.
+          pose proof (IH _ _ _ _ _ ef re _ _ _ _ H3 B3 CRp (equiterm_ptr_seval _ _) E4) as R4.
           rewrite map_res_eq in E1. inversion E1; subst.
           split.
           { exists G4. split; [eauto using ext_trans|]. split; auto. split; auto.
             intros a Ha. destruct r4; cbn in Ha; try discriminate. eapply V4; eauto. }
           destruct R3 as (ds' & m3 & <- & Em3).
-          apply (res_ok_bind_val eq (fun n => force_fields (gfield defs rr n) defs0)
-                   (fun n ds' => bind (gfield defs rr n ef) (fun dv => Val ((f, dv) :: ds'))) ds m3); auto.
+          apply (res_ok_bind_val eq (fun n => force_fields (gfield n) fs0)
+                   (fun n ds' => bind (gfield n (ef, re)) (fun dv => Val ((f, dv) :: ds'))) ds m3); auto.
           + apply force_fields_mono. intros; apply gfield_mono.
           + intros n Hn m' L. pose proof (bind_not_oof _ _ Hn) as Hg.
-            now rewrite (gfield_mono defs rr ef n Hg m' L).
-          + apply (res_ok_map (fun n => sfull n (ef, ERec defs rr)) (fun dv => (f, dv) :: ds) r4 R4). }
+            now rewrite (gfield_mono (ef, re) n Hg m' L).
+          + apply (res_ok_map (fun n => sfull n (ef, re)) (fun dv => (f, dv) :: ds) r4 R4). }
       destruct (fields fl (hp cf) k0) as [r1 [[fr1 h2] k2]] eqn:E1.
-      destruct (FLS fl defs FRl G1 _ _ _ _ _ _ (ext_refl G1) H1 C1 E1) as [_ R1].
+      destruct (FLS fl fs FRl G1 _ _ _ _ _ _ (ext_refl G1) H1 C1 E1) as [_ R1].
       rewrite map_res_eq in E. inversion E; subst.
       apply HEAD.
       eapply res_ok_equiterm;
-        [apply (equiterm_shift _ (fun n => bind (force_fields (gfield defs rr n) defs) (fun ds => Val (DRec ds))));
+        [apply (equiterm_shift _ (fun n => bind (force_fields (gfield n) fs) (fun ds => Val (DRec ds))));
          [reflexivity | intros n; apply sforce_rec]|].
       apply (res_ok_map _ DRec r1 R1).
 Qed.
@@ -453,6 +452,6 @@ Proof.
   unfold spec_run_query.
   destruct path as [|f path]; cbn [squery fst snd].
   - apply equiterm_chain. intros v n Hn m L. reflexivity.
-  - apply equiterm_chain. intros v. destruct v as [| | |defs rr]; try (intros ? ? ? ?; reflexivity).
-    destruct (assoc defs f); [apply squery_mono|intros ? ? ? ?; reflexivity].
+  - apply equiterm_chain. intros v. destruct v as [| | |fs]; try (intros ? ? ? ?; reflexivity).
+    destruct (assoc fs f) as [[cf bb]|]; [apply squery_mono|intros ? ? ? ?; reflexivity].
 Qed.
